@@ -529,6 +529,18 @@ def eval_pool(ctx, pg, cfg, q):
     if not same(seq, par):
         ctx.violation(f'pool:{q[0]}', mode='pool', cfg=cfg, query=q, expected=show(seq), observed=show(par),
                       tolerance=dict(rel=REL, abs=ABS), oracle='parallelize=False on a fresh Coalescent')
+    # ... and the same with the progress bar switched on (another branch of the helper that hands out the work)
+    import io, contextlib
+    cb = conv.make_coalescent(pg, cfg, parallelize=True, pbar=True)
+    for d in (cb.sfs, cb.fsfs):
+        d.parallelize = True
+        d.pbar = True
+    with contextlib.redirect_stderr(io.StringIO()):
+        parb = run_query(pg, cb, q)
+    ctx.count(f'pool+pbar:{q[0]}')
+    if not same(seq, parb):
+        ctx.violation(f'pool+pbar:{q[0]}', mode='pool', cfg=cfg, query=q, expected=show(seq), observed=show(parb),
+                      tolerance=dict(rel=REL, abs=ABS), oracle='parallelize=False on a fresh Coalescent; here parallelize=True, pbar=True')
 
 
 # ----------------------------------------------------------------------------------------------- driver
